@@ -293,6 +293,10 @@ RULE = ("in-process stack: a workflow that stores state and waits for 1-2 extern
         "sends, idle-timer firings and step completions; in every quiescent state: idle longer than idle_timeout => released (out of "
         "memory, no live control loop, idle_since set); finally every send succeeded and the run completed with the state it had "
         "stored before waiting and all responses; non-trivial = at least one schedule deviation")
+from vmc.tables import _ROUND6 as _R6  # noqa: E402
+
+RULE += _R6["C36"]
+
 
 
 def run(tier: str, seed: int) -> Any:
